@@ -144,6 +144,12 @@ def xattr_cases(tier):
         out.append(("xattr-%s-all" % style, [tarmk_E(b"x", "file", content=b"x", xattrs=dict(vals), xattr_style=style)], "pax"))
         for k, v in vals.items():
             out.append(("xattr-%s-%s" % (style, k.decode()), [tarmk_E(b"x", "file", content=b"x", xattrs={k: v}, xattr_style=style)], "pax"))
+        # xattrs on entries that also need a long-name / long-link extension record (two extension mechanisms in front of one header)
+        out.append(("xattr-%s-long-name" % style, [tarmk_E(name_of_len(150, 40), "file", content=b"long", xattrs={b"user.k": b"v"}, xattr_style=style),
+                                                    tarmk_E(b"short", "file", content=b"s", xattrs={b"user.k": b"w"}, xattr_style=style)], "pax"))
+        out.append(("xattr-%s-long-dir-with-child" % style, [tarmk_E(name_of_len(120, 50), "dir", xattrs={b"user.d": b"1"}, xattr_style=style),
+                                                              tarmk_E(name_of_len(120, 50) + b"/c", "file", content=b"c", uid=7, gid=8)], "pax"))
+        out.append(("xattr-%s-long-link-target" % style, [tarmk_E(b"sl", "slink", target=name_of_len(200, 30), xattrs={b"user.l": b"2"}, xattr_style=style)], "pax"))
         out.append(("xattr-%s-on-dir-and-link" % style, [tarmk_E(b"d", "dir", xattrs={b"user.d": b"1"}, xattr_style=style),
                                                          tarmk_E(b"d/l", "slink", target=b"t", xattrs={b"user.l": b"2"}, xattr_style=style)], "pax"))
         # PAX record length prefix counts its own digits: value lengths around the points where the record length gains a digit (99/100, 999/1000, 9999/10000)
@@ -229,7 +235,7 @@ def all_model_cases(tier):
         # the same entries followed by two more: a reader that miscounts what an entry (its extension records, its payload, its padding) occupies
         # goes wrong at the NEXT header. Followers without payload (symlink) and with payload (file).
         fam = label.split("-")[0]
-        if "+followers" in label or (tier == "quick" and fam not in ("name", "target", "hardlink", "size", "sparse", "xattr")):
+        if "+followers" in label or fam == "boundary" or (tier == "quick" and fam not in ("name", "target", "hardlink", "size", "sparse", "xattr")):
             continue
         if tier == "quick" and fam == "sparse" and "regions" not in label and "mask5" not in label and "mask a" not in label:
             continue
